@@ -146,9 +146,33 @@ def enc_rule(r):
     raise ProtoError('unknown rule %r' % (r,))
 
 
-def build_rule(r):
-    """real vakt rule object for an abstract rule"""
+# deprecated aliases of built-in rules (same meaning by documentation); used by C05 only
+ALIASES = {}
+for _tag, _mod, _name in (('streq', r_str, 'StringEqualRule'), ('pairs', r_str, 'StringPairsEqualRule'),
+                          ('regex', r_str, 'RegexMatchRule'), ('cidr', r_net, 'CIDRRule'),
+                          ('subjeq', r_inq, 'SubjectEqualRule'), ('acteq', r_inq, 'ActionEqualRule'),
+                          ('resin', r_inq, 'ResourceInRule')):
+    if hasattr(_mod, _name):
+        ALIASES[_tag] = getattr(_mod, _name)
+
+
+def build_rule(r, alias=None):
+    """real vakt rule object for an abstract rule; `alias` (a random.Random) makes a sixth of the rules that have a
+    deprecated alias class be built through it"""
     tag = r[0]
+    if alias is not None and tag in ALIASES and alias.random() < 0.17:
+        import warnings
+        with warnings.catch_warnings():
+            warnings.simplefilter('ignore')
+            if tag == 'streq':
+                return ALIASES[tag](r[1], r[2])
+            if tag in ('regex', 'cidr'):
+                return ALIASES[tag](r[1])
+            return ALIASES[tag]()
+    if tag in ('and', 'or') and alias is not None:
+        return (r_logic.And if tag == 'and' else r_logic.Or)(*[build_rule(x, alias) for x in r[1]])
+    if tag == 'not' and alias is not None:
+        return r_logic.Not(build_rule(r[1], alias))
     if tag in _V1:
         return _V1[tag][1](r[1])
     if tag in _VS:
